@@ -385,6 +385,66 @@ def regen(ctx):
     c35.regen_file(ctx, GEN, translate_more_core)
 
 
+def private_recheck(prop, gen_text):
+    """compile the closure of coq/<prop>/Props.v in a private directory with gen_text as <prop>/Gen.v.
+    (coq/<prop>/Gen.v is a shared file: a concurrent run of the same check on another tree — mutation tests —
+    can replace it between this run's regeneration and its make.)  -> (ok, log)"""
+    import shutil
+    import subprocess
+    d = vlib.mkscratch("coq")
+    try:
+        os.mkdir(os.path.join(d, prop))
+        files = [f for f in vlib.coq_closure(prop + "/Props.v") if f.startswith(prop + "/")]
+        deps = {}
+        for f in files:
+            text = gen_text if f == prop + "/Gen.v" else open(os.path.join(vlib.COQ, f)).read()
+            with open(os.path.join(d, f), "w") as out:
+                out.write(text)
+            deps[f] = {prop + "/" + m + ".v" for m in re.findall(r"\b%s\.(\w+)" % prop, vlib.strip_comments(text))} - {f}
+        done, log = [], ""
+        while len(done) < len(files):
+            ready = [f for f in files if f not in done and deps[f] <= set(done)]
+            if not ready:
+                return False, "cyclic dependencies among %r" % files
+            for f in ready:
+                p = subprocess.run(["timeout", "600", "coqc", "-Q", d, "Cffi", os.path.join(d, f)],
+                                   capture_output=True, text=True, cwd=d)
+                if p.returncode != 0:
+                    return False, (p.stdout + p.stderr)[-3000:]
+                done.append(f)
+        return True, log
+    finally:
+        shutil.rmtree(d, ignore_errors=True)
+        if d in vlib._scratch_dirs:
+            vlib._scratch_dirs.remove(d)
+
+
+def settle_obligations(ctx, prop, gen, translate):
+    """make the proof verdict independent of interference on the shared Gen.v: when the shared build and the
+    regenerated text disagree (text == snapshot but the build failed, or text != snapshot but the build passed),
+    the obligations are re-checked privately on this run's own regenerated text and that verdict is used"""
+    if ctx.replay_mode or ctx.coq is None:
+        return
+    try:
+        text = translate(vlib.REPO)
+    except Untranslatable:
+        return
+    same = text == open(gen + ".snapshot").read()
+    coq_ok = bool(ctx.coq.get("ok"))
+    if same == coq_ok:
+        return
+    ok, log = private_recheck(prop, text)
+    ctx.extra["private_recheck"] = dict(ok=ok, shared_build_ok=coq_ok, text_is_snapshot=same)
+    if ok and not coq_ok:
+        ctx.broken[:] = [b for b in ctx.broken if not (b[0] or "").startswith(prop)]
+        ctx.coq["ok"], ctx.coq["discharged"] = True, ctx.coq["obligations"]
+    elif not ok and coq_ok:
+        ctx.obligation_broken("%s/Proofs.v on the regenerated %s/Gen.v (private re-check)" % (prop, prop), log)
+        ctx.coq["ok"] = False
+        ctx.coq["discharged"] = ctx.coq["obligations"] - sum(
+            len(vlib.count_statements(f)) for f in ctx.coq.get("files", []) if not f.endswith(("Keys.v", "Steps.v", "Cmp.v", "Prog.v", "Gen.v")))
+
+
 class Gen:
     def __init__(self, rng):
         self.rng = rng
@@ -798,6 +858,7 @@ def run(ctx):
         "libffi: the trampoline at a closure's address passes that closure's user_data to invoke_callback",
         "single-threaded (GIL build): MALLOC_CLOSURE_LOCK is a no-op; CPython frees a callback when its last "
         "reference goes away, or at gc.collect() for reference cycles"]
+    settle_obligations(ctx, "C29", GEN, translate_more_core)
     evaluate(ctx, generate(ctx))
 
 
